@@ -196,7 +196,7 @@ fn generate(rng: &mut Rng) -> C14Sc {
     C14Sc {
         net: NetScenario {
             seed: rng.next_u64(),
-            cfg: NetCfg { secret, expiry: Some(expiry), max_frame: Some(max_frame), timeout_ns: secs(timeout_s), proxy, limiter: None, use_start },
+            cfg: NetCfg { secret, expiry: Some(expiry), max_frame: Some(max_frame), timeout_ns: secs(timeout_s), proxy, limiter: None, use_start, agones: false },
             wall,
             services,
             clients,
